@@ -274,6 +274,43 @@ theorem restore_undoes_openwrt_dropin (c : FwConsts) (hc : RestartsBy c) (o : Ob
         split <;> (try split) <;> simp_all [uciCommit, aget_adel_ne _ _ _ (Ne.symm hp')]
       · split <;> (try split) <;> simp_all [uciCommit]
 
+/-- **start that fails half-way, then stop (edgeos, firewalla)**: whatever the service commands do
+during Setup (`c'.cmds` is any list: e.g. the restart fails), the drop-in written by it is removed
+by the Restore of the following stop, no other file changes, and dnsmasq is restarted after the
+removal. -/
+theorem restore_after_any_setup_file (c c' : FwConsts) (hc : RestartsBy c) (fw : Fw) (hfw : fw = .edgeos ∨ fw = .firewalla)
+    (o : Obj) (s : Sys) (b : Bytes) (hw : renderFw c' o = .ok b) :
+    let a := fileSetup c' o s
+    let r := restore c fw a.2.1 a.2.2
+    r.1 = true ∧ DropinGone o s r.2.2 ∧ r.2.2.uciC = s.uciC := by
+  intro a r
+  have hwt : writeTemplate c' o s = (true, { s with files := aset s.files o.path b }) := by
+    simp [writeTemplate, hw]
+  obtain ⟨pf, pu, _, pn, _⟩ := runCmds_preserves c'.cmds { s with files := aset s.files o.path b }
+  have ha : a = ((runCmds c'.cmds { s with files := aset s.files o.path b }).1, o,
+      (runCmds c'.cmds { s with files := aset s.files o.path b }).2) := by
+    show fileSetup c' o s = _
+    simp [fileSetup, hwt]
+  have hfile : aget a.2.2.files o.path = some b := by
+    rw [ha]; simp only []; rw [pf]; simp
+  have hr : r = (true, o, restartNow { a.2.2 with files := adel a.2.2.files o.path }) := by
+    show restore c fw a.2.1 a.2.2 = _
+    have ho : a.2.1 = o := by rw [ha]
+    rw [ho]
+    rcases hfw with rfl | rfl <;> simp [restore, removeStrict, hfile, hc _]
+  rw [hr]
+  have hf2 : a.2.2.files = aset s.files o.path b := by rw [ha]; exact pf
+  have hu2 : a.2.2.uciC = s.uciC := by rw [ha]; exact pu
+  have hn2 : a.2.2.nvL = s.nvL := by rw [ha]; exact pn
+  refine ⟨rfl, ⟨?_, ?_, ?_, ?_⟩, ?_⟩
+  · simp [restartNow]
+  · intro p hp
+    simp only [restartNow, hf2]
+    rw [aget_adel_ne _ _ _ (Ne.symm hp), aget_aset_ne _ _ _ _ (Ne.symm hp)]
+  · simpa [restartNow] using hn2
+  · simp [restartNow, snapOf]
+  · simpa [restartNow] using hu2
+
 /-! ## restore_undoes — ddwrt: for EVERY pre-existing nvram store (any values, multi-line, unset),
 after setupDNSMasq (run by Setup, or by Configure in cache mode) and Restore every nvram variable
 reads as before (unset ≡ empty), the values are committed, no file changed and dnsmasq was started
@@ -360,6 +397,104 @@ def ddWitness : Sys :=
   { nvL := [(b!"dnsmasq_options", b!"cache-size=500\nlog-queries\n"), (b!"rc_startup", b!"echo\ndnssec=1\n"), (b!"dns_crypt", b!"1")] }
 
 example : (ddSetup Gen.Router.ddwrt names vars {} ddWitness).1 = true := by decide +kernel
+
+/-- **start that fails half-way, then stop (ddwrt)**: whatever the service commands do during
+Setup — `c'.cmds` is ANY command list, in particular the real one with one command failing
+(`faultConsts`, corollary below) — the nvram values were saved before anything was written, so the
+Restore of the stop that follows re-installs every previous value, commits, and starts dnsmasq
+after the last change. run.go only logs a Setup error and keeps the daemon running, so this is the
+history `start (restart of dnsmasq fails); …; stop`. -/
+theorem restore_after_any_setup_ddwrt (c' : FwConsts) (o : Obj) (s : Sys) (rendered : Bytes)
+    (hr' : renderFw c' o = .ok rendered) :
+    let a := ddSetup c' names vars o s
+    let r := ddRestore Gen.Router.ddwrt a.2.1 a.2.2
+    r.1 = true ∧ (∀ k, nvGet r.2.2 k = nvGet s k) ∧ r.2.2.nvC = r.2.2.nvL ∧ r.2.2.files = s.files ∧
+    r.2.2.uciC = s.uciC ∧ r.2.2.view = some (snapOf r.2.2) := by
+  have hcmd : ∀ s, runCmds Gen.Router.ddwrt.cmds s = (true, restartNow { s with view := none }) :=
+    fun s => (restart_cmds_effective s).2.2.2.2.2
+  have hv : Gen.Router.ddwrtSetVars = Hand.ddwrtSetVars := gen_consts_agree.2.2.2.2.2.2.2.2.2.1
+  have hn : Gen.Router.ddwrtSaveNames = Hand.ddwrtSaveNames := gen_consts_agree.2.2.2.2.2.2.2.2.1
+  intro a r
+  let cs := c'.cmds
+  let pairs : List (Bytes × Bytes) := [(b!"dns_dnsmasq", b!"1"), (b!"dnsmasq_options", rendered), (b!"dns_crypt", b!"0"),
+    (b!"dnssec", b!"0"), (b!"dnsmasq_no_dns_rebind", b!"0"), (b!"dnsmasq_add_mac", b!"0")]
+  have hvars : (vars.map fun v => if v.2 then v.1 ++ rendered else v.1) = pairs.map fun p => p.1 ++ 61 :: p.2 := by
+    show (Gen.Router.ddwrtSetVars.map _) = _
+    rw [hv]; simp [Hand.ddwrtSetVars, pairs]
+  have hpk : ∀ p ∈ pairs, (61 : UInt8) ∉ p.1 := by
+    intro p hp
+    simp only [pairs, List.mem_cons, List.not_mem_nil, or_false] at hp
+    rcases hp with rfl | rfl | rfl | rfl | rfl | rfl <;> simp
+  have hne : (vars.map fun v => if v.2 then v.1 ++ rendered else v.1).isEmpty = false := by
+    rw [hvars]; simp [pairs]
+  have hsaved : getNVRAM names s = (names.map fun n => (n, nvGet s n)).map fun p => p.1 ++ 61 :: p.2 := by
+    simp [getNVRAM, List.map_map, Function.comp_def]
+  have hnk : ∀ p ∈ (names.map fun n => (n, nvGet s n)), (61 : UInt8) ∉ p.1 := by
+    intro p hp
+    simp only [List.mem_map] at hp
+    obtain ⟨n, hn', rfl⟩ := hp
+    exact ddwrt_names_have_no_eq n hn'
+  have hnames_ne : (getNVRAM names s).isEmpty = false := by
+    show (getNVRAM Gen.Router.ddwrtSaveNames s).isEmpty = false
+    rw [hn]; simp [getNVRAM, Hand.ddwrtSaveNames]
+  have hkeys : pairs.map (·.1) = names := by
+    show _ = Gen.Router.ddwrtSaveNames
+    rw [hn]; simp [pairs, Hand.ddwrtSaveNames]
+  -- the state Setup leaves: the NextDNS values written and committed, then whatever `cs` did
+  let s1 : Sys := nvCommit { s with nvL := setAll pairs s.nvL }
+  have hsetup : a = ((runCmds cs s1).1, { o with savedParams := getNVRAM names s }, (runCmds cs s1).2) := by
+    show ddSetup c' names vars o s = _
+    unfold ddSetup
+    simp only [hr', setNVRAM, hne]
+    rw [hvars, setNVRAMLoop_pairs pairs hpk s]
+    simp [s1, cs]
+  obtain ⟨pf, pu, _, pn, _⟩ := runCmds_preserves cs s1
+  let s2 : Sys := (runCmds cs s1).2
+  have hr2 : r = (true, { o with savedParams := getNVRAM names s },
+      restartNow { (nvCommit { s2 with nvL := setAll (names.map fun n => (n, nvGet s n)) s2.nvL }) with view := none }) := by
+    show ddRestore Gen.Router.ddwrt a.2.1 a.2.2 = _
+    rw [hsetup]
+    simp only [ddRestore, setNVRAM, hnames_ne]
+    rw [hsaved, setNVRAMLoop_pairs _ hnk]
+    simp [hcmd, s2]
+  rw [hr2]
+  have hn2 : s2.nvL = setAll pairs s.nvL := by
+    show (runCmds cs s1).2.nvL = _
+    rw [pn]; rfl
+  refine ⟨rfl, ?_, ?_, ?_, ?_, ?_⟩
+  · intro k
+    simp only [nvGet, nvCommit, restartNow, hn2]
+    by_cases hk : k ∈ names
+    · rw [aget_setAll_fun names (fun n => (aget s.nvL n).getD []) _ k hk]; simp
+    · rw [aget_setAll_notin _ _ k (by simpa [List.map_map, Function.comp_def] using hk)]
+      rw [aget_setAll_notin pairs _ k (by rw [hkeys]; exact hk)]
+  · simp [nvCommit, restartNow]
+  · simpa [nvCommit, restartNow, s1, s2] using pf
+  · simpa [nvCommit, restartNow, s1, s2] using pu
+  · simp [nvCommit, restartNow, snapOf]
+
+theorem renderFw_faultConsts (c : FwConsts) (k : Nat) (o : Obj) : renderFw (faultConsts c k) o = renderFw c o := by
+  unfold faultConsts
+  split <;> rfl
+
+/-- … in particular when the `k`-th service command of the regenerated restart sequence fails
+(`stopservice dnsmasq` for k = 1, `startservice dnsmasq` for k = 2), for every pre-existing state. -/
+theorem restore_after_failed_setup_ddwrt (k : Nat) (o : Obj) (s : Sys) (rendered : Bytes)
+    (hr : renderFw Gen.Router.ddwrt o = .ok rendered) :
+    let a := ddSetup (faultConsts Gen.Router.ddwrt k) names vars o s
+    let r := ddRestore Gen.Router.ddwrt a.2.1 a.2.2
+    r.1 = true ∧ (∀ k, nvGet r.2.2 k = nvGet s k) ∧ r.2.2.nvC = r.2.2.nvL ∧ r.2.2.files = s.files ∧
+    r.2.2.uciC = s.uciC ∧ r.2.2.view = some (snapOf r.2.2) := by
+  refine restore_after_any_setup_ddwrt (faultConsts Gen.Router.ddwrt k) o s rendered ?_
+  rw [← hr]
+  exact renderFw_faultConsts _ _ _
+
+/-- the fault is real in the model: with the first or the second command failing Setup reports an
+error, and after the first one dnsmasq is still running on the configuration it had (stale view),
+after the second it is stopped — from the witness state of `restore_undoes_ddwrt`. -/
+example : (ddSetup (faultConsts Gen.Router.ddwrt 1) names vars {} ddWitness).1 = false ∧
+    (ddSetup (faultConsts Gen.Router.ddwrt 2) names vars {} ddWitness).1 = false ∧
+    (ddSetup (faultConsts Gen.Router.ddwrt 2) names vars {} ddWitness).2.2.view = none := by decide +kernel
 
 /-- the `nvram show` parsing that internal.NVRAM used before the repair does NOT have the property:
 on `ddWitness` the multi-line value is cut to its first line, the line `dnssec=1` of rc_startup is
